@@ -507,8 +507,11 @@ func c11Witnesses(cfgs []*edfCfg) []*edfCase {
 	add("witness.fixed", "Marsh inside []any after 5000 bytes of other data", "", []any{bytes.Repeat([]byte{1}, 5000), Marsh{P: []byte("tail")}, Marsh{P: big}})
 	add("witness.fixed", "binary of length 65536", "", bytes.Repeat([]byte{7}, 65536))
 	// listed findings: reported under their signature while they reproduce
-	add("witness.known", "map[[2]int]string top-level", "C11/map-array-key", map[[2]int]string{{1, 2}: "x"})
-	add("witness.known", "map[[2]int]string inside []any", "C11/map-array-key", []any{map[[2]int]string{{1, 2}: "x"}})
+	// D27 (map keyed by an array type), repaired by 07a18f8: regression witnesses — a failure is reported under
+	// C11/map-array-key, which is no longer a listed finding
+	add("witness.fixed", "map[[2]int]string top-level", "", map[[2]int]string{{1, 2}: "x"})
+	add("witness.fixed", "map[[2]int]string inside []any", "", []any{map[[2]int]string{{1, 2}: "x"}})
+	add("witness.fixed", "map[[2][3]int8]map[[1]string][]int", "", map[[2][3]int8]map[[1]string][]int{{{1, 2, 3}, {4, 5, 6}}: {{"k"}: {7}}})
 	add("witness.known", "[]SEmpty{{},{}}", "C11/zero-width-elements", []SEmpty{{}, {}})
 	add("witness.known", "[3]SEmpty{}", "C11/zero-width-elements", [3]SEmpty{})
 	return out
